@@ -1,6 +1,7 @@
 //! Drivers for the library-level properties. Usage: `libchecks <ID> [--tier quick|thorough] [--replay FILE]`.
 mod c01;
 mod c08;
+mod c09;
 mod isa_sweep;
 mod mach;
 
@@ -10,6 +11,7 @@ fn main() {
     match id.as_str() {
         "C01" => c01::run(c01::Mode::C01),
         "C08" => c08::run(),
+        "C09" => c09::run(),
         "C15" => c01::run(c01::Mode::C15),
         _ => {
             eprintln!("MACHINERY-ERROR unknown property id '{}'", id);
